@@ -266,9 +266,9 @@ func (c *fileCtx) classifyRace() {
 	})
 }
 
-// raceWrap returns the replacement of expression n (already rewritten below) or nil.
-// Race build: every classified access reports (R / W / MR / MW). Normal build: map accesses report (MR / MW),
-// and the accesses listed in racy_sites.txt are scheduling points as well (RY / WY / MRY / MWY).
+// raceWrap returns the replacement of expression n (already rewritten below) or nil. Every classified access is
+// wrapped (R / W / MR / MW) in both builds; rt/sched/race.go decides at run time what a wrapper does (report only
+// in the race build; detect, and yield first at the active racy sites, in the normal build).
 func (c *fileCtx) raceWrap(n ast.Expr) ast.Expr {
 	acc, am := c.raceAcc[n]
 	mp, mm := c.raceMap[n]
@@ -276,29 +276,21 @@ func (c *fileCtx) raceWrap(n ast.Expr) ast.Expr {
 		return nil
 	}
 	st := c.raceSite[n]
-	listed := racySites[st.key]
-	if !raceMode && !mm && !listed {
-		return nil
-	}
 	pos := &ast.BasicLit{Kind: token.STRING, Value: fmt.Sprintf("%q", st.pos)}
 	var out ast.Expr = n
-	suffix := ""
-	if !raceMode && listed {
-		suffix = "Y"
-	}
-	if am && (raceMode || listed) {
+	if am {
 		fn := "R"
 		if acc == 'w' {
 			fn = "W"
 		}
-		out = &ast.ParenExpr{X: &ast.StarExpr{X: call(sel("_vsched", fn+suffix), &ast.UnaryExpr{Op: token.AND, X: n}, pos)}}
+		out = &ast.ParenExpr{X: &ast.StarExpr{X: call(sel("_vsched", fn), &ast.UnaryExpr{Op: token.AND, X: n}, pos)}}
 	}
 	if mm {
 		fn := "MR"
 		if mp == 'w' {
 			fn = "MW"
 		}
-		out = call(sel("_vsched", fn+suffix), out, pos)
+		out = call(sel("_vsched", fn), out, pos)
 	}
 	c.needSch = true
 	return out
